@@ -192,7 +192,7 @@ def wigm_options(d):
 def meek_options(d, stratum='S1', rational=True):
     """S1 "supported": omega within the rule's own default for the arithmetic
     (guarded: omega <= p//2, guard >= p//2; fixed: omega <= 2p//3; both p >= 3 - the guarded p = 2 drawn here is classified S2 by C08.in_S1);
-    S2 "free": any precision >= 1, guard >= 0, omega 0..p."""
+    S2 "free": any precision >= 1, guard >= 0, omega 0..p and (20 %) finer than the arithmetic resolves."""
     a = d.int(0, 9)
     o = {}
     if a <= 3:
@@ -208,7 +208,7 @@ def meek_options(d, stratum='S1', rational=True):
         else:
             p = d.int(1, 12)
             o['precision'] = p
-            o['omega'] = d.int(0, p)
+            o['omega'] = d.int(0, p) if d.p(80) else d.int(p + 1, p + 3)      # finer than the arithmetic: omega truncates to 0
     elif a <= 5 and rational:
         o['arithmetic'] = 'rational'
         if d.p(60):
@@ -230,7 +230,7 @@ def meek_options(d, stratum='S1', rational=True):
             p = d.int(1, 18)
             o['precision'] = p
             o['guard'] = d.int(0, 9)
-            o['omega'] = d.int(0, p)
+            o['omega'] = d.int(0, p) if d.p(80) else d.int(p + 1, p + o['guard'] + 2)
     if d.p(30):
         o['defeat_batch'] = 'none' if d.p(70) else 'safe'
     if d.p(10):
@@ -297,8 +297,9 @@ class Choices:
 SEPS = [' ', ' ', '\n', '\t', '  ', '\r\n', ' \n ', ' # note\n', ' /* c */ ', '\n/* a /* nested */ b */\n',
         ' #\n', ' /* 1 2 0 */ ', ' # "q" [x] (y) -1\n', ' /*x*/ ', '\n\n',
         ' /* "q" */ ', ' /* say "hi there */ ', '\n/* "a */\n', ' # "unbalanced\n',
-        ' /* see #12 */ ', ' /* # */ ', '\n/* a #b /* #c */ d */\n']
-QSEPS = [' ', ' ', '\t', '\n', '  ', '\r\n']      # inside a quoted string only white space may vary
+        ' /* see #12 */ ', ' /* # */ ', '\n/* a #b /* #c */ d */\n',
+        '\r', ' # cr ends the comment\r', '\r/* x */\r', ' # crlf\r\n']     # bare CR is a line break too (classic Mac files)
+QSEPS = [' ', ' ', '\t', '\n', '  ', '\r\n', '\r']      # inside a quoted string only white space may vary
 
 
 def quoted_tokens(s):
